@@ -8,10 +8,25 @@ import json
 from collections import defaultdict
 from os.path import dirname, join
 
+import numpy as np
+
 from ..convert import from_hif_dict, to_hif_dict
 from ..exception import XGIError
 
 __all__ = ["write_hif", "write_hif_collection", "read_hif", "read_hif_collection"]
+
+
+def _numpy_to_builtin(obj):
+    """Fallback for `json.dumps`: write numpy scalars as the Python numbers they equal.
+
+    Node and edge IDs created from numpy arrays (e.g., by
+    `watts_strogatz_hypergraph`) are `np.int64` objects, which the `json`
+    module cannot serialize although they are equal to, and hash like, plain
+    integers.
+    """
+    if isinstance(obj, np.generic):
+        return obj.item()
+    raise TypeError(f"Object of type {type(obj).__name__} is not JSON serializable")
 
 
 def write_hif(H, path):
@@ -29,7 +44,7 @@ def write_hif(H, path):
     """
     data = to_hif_dict(H)
 
-    datastring = json.dumps(data, indent=2)
+    datastring = json.dumps(data, indent=2, default=_numpy_to_builtin)
 
     with open(path, "w") as output_file:
         output_file.write(datastring)
